@@ -2,6 +2,7 @@ CONSTANTS PayFull = {5}
   PayEdge = {5}
   Pads = {0, 7}
   CutMode = "edges"
+  DeepSizes = {160}
 SPECIFICATION Spec
 VIEW view
 INVARIANT TypeOK
